@@ -39,6 +39,7 @@ type Config struct {
 	NoOps       []string // extra function-name prefixes treated as no-ops
 	TimerAnyTime bool    // virtual timers may fire at any scheduling point
 	Deadline    time.Time
+	SelfCheck   bool
 }
 
 type entryKind uint8
